@@ -820,9 +820,18 @@ impl Sb {
             // dense
             (0..(1u64 << sw)).collect()
         } else {
+            // distinct values (an exhausted choice sequence keeps returning 0: bounded)
             let mut v: BTreeSet<u64> = BTreeSet::new();
-            while v.len() < n_arms {
+            for _ in 0..4 * n_arms {
+                if v.len() >= n_arms {
+                    break;
+                }
                 v.insert(d.below(1 << sw) as u64);
+            }
+            let mut k = 0u64;
+            while v.len() < n_arms {
+                v.insert(k);
+                k += 1;
             }
             v.into_iter().collect()
         };
